@@ -861,6 +861,16 @@ Definition spec_data (c : pctx) (fs : files) (d : ldata) : option (list N) :=
   | LPattern _ => None
   end.
 
+(* load fuse / ifr {{..}} > index: the blob, read as one big-endian number below 2^64, is programmed as one or two
+   byte-swapped 32-bit words (for a four / eight byte blob: its little-endian words, as elftosb does) *)
+Definition spec_prog_blob (addr : Z) (b : list N) : option cmd :=
+  let v := Z.of_N (be_dec b) in
+  obind (if v <? 4294967296 then Some (swap32 v, 0)
+         else if v <? 18446744073709551616 then Some (swap32 (Z.shiftr v 32), swap32 (Z.land v 4294967295))
+         else None) (fun w =>
+  obind (guard (u32 addr && u32 (fst w) && u32 (snd w))) (fun _ =>
+  Some (mk 10 (Z.lor (b2z (negb (snd w =? 0))) 1024) addr (fst w) (snd w) PNone 4))).
+
 Definition stmt_spec (c : pctx) (fs : files) (kbs : keyblobs) (s : stmt) : option cmd :=
   match s with
   | SLoad o (LPattern e) t =>
@@ -880,15 +890,7 @@ Definition stmt_spec (c : pctx) (fs : files) (kbs : keyblobs) (s : stmt) : optio
       match d with
       | LBlob b =>
           if m =? 4 then
-            (* load fuse / ifr {{..}} > index: the blob, read as one big-endian number below 2^64, is programmed as one or
-               two byte-swapped 32-bit words (for a four / eight byte blob: its little-endian words, as elftosb does) *)
-            obind (spec_data c fs d) (fun bytes =>
-            let v := Z.of_N (be_dec bytes) in
-            obind (if v <? 4294967296 then Some (swap32 v, 0)
-                   else if v <? 18446744073709551616 then Some (swap32 (Z.shiftr v 32), swap32 (Z.land v 4294967295))
-                   else None) (fun w =>
-            obind (guard (u32 (fst al) && u32 (fst w) && u32 (snd w))) (fun _ =>
-            Some (mk 10 (Z.lor (b2z (negb (snd w =? 0))) 1024) (fst al) (fst w) (snd w) PNone 4))))
+            obind (spec_data c fs d) (fun bytes => spec_prog_blob (fst al) bytes)
           else obind (spec_data c fs d) (fun bytes => obind (guard (u32 (fst al))) (fun _ =>
                Some (mk 2 (mem_flags m) (fst al) 0 0 (PBytes bytes) m)))
       | _ => obind (spec_data c fs d) (fun bytes => obind (guard (u32 (fst al))) (fun _ =>
@@ -929,7 +931,11 @@ Definition stmt_spec (c : pctx) (fs : files) (kbs : keyblobs) (s : stmt) : optio
       end))
   | SEncrypt id o d t =>
       obind (sev c id) (fun vid =>
-      obind (match o with MAt e => obind (sev c e) (fun _ => Some tt) | _ => Some tt end) (fun _ =>   (* the option is read, not used *)
+      obind (match o with                                    (* the option is read (it must be syntax), not used *)
+             | MAt e => obind (sev c e) (fun _ => Some tt)
+             | MName s => if String.eqb s "" then None else Some tt
+             | MNone => Some tt
+             end) (fun _ =>
       obind (spec_target c t) (fun al =>
       match d with
       | LFile _ | LSource _ | LBlob _ =>
